@@ -108,6 +108,13 @@ Example C07_nonvacuous :
            [true; false; false]; [true; false; false]; [false; false; false]; [false; false; true]]).
 Proof. vm_compute. reflexivity. Qed.
 
+(* ---- the executable judgement the correspondence check evaluates on implementation traces (coq/Check) is sound for the
+   model on EVERY scenario of the profile, and transfers to every trace that agrees with the model's run ---- *)
+From BEI Require Check.C07c Proofs.JudgeC07P.
+Theorem C07_app_judgement_sound : forall sc, JudgeC07P.spawns_declared sc = true /\ JudgeC07P.shared_specb sc = true /\ JudgeC07P.nonconsumingb sc = true /\ JudgeC07P.sites_distinctb sc = true -> C07c.ok (sc, App.trace (App.run sc)) = 0%Z.
+Proof. exact JudgeC07P.C07_judgement_sound. Qed.
+
+
 Print Assumptions C07_init.
 Print Assumptions C07_op_never_panics.
 Print Assumptions C07_ops_never_panic.
@@ -128,3 +135,4 @@ Print Assumptions C07_last_holder_leaves.
 Print Assumptions C07_exclusive_arrival.
 Print Assumptions C07_shared_arrival.
 Print Assumptions C07_removal.
+Print Assumptions C07_app_judgement_sound.
